@@ -21,7 +21,7 @@ LEVEL_TEXT = (
 LEVEL_NOTE = "Trusts vlib/detsched.py; in real-thread mode a latch that does not open within 8 s is reported as inconclusive, not as a violation."
 TECHNIQUE = "property-based testing with harness-owned schedules: in-flight counters, rendezvous latch (deadlock = verdict), attempt counters"
 RULE = (
-    "width: m in 1..6 independent calls hanging at different depths off a small tree of set-up calls (+ downstream consumers, optional registry with stored nodes), workers w in 1..m+3, "
+    "(also: one width case in 16 has 33-80 workers and as many independent calls; failing attempts under retry raise frozen/__slots__/falsy/unprintable exceptions; call 'functions' that are objects or partials) width: m in 1..6 independent calls hanging at different depths off a small tree of set-up calls (+ downstream consumers, optional registry with stored nodes), workers w in 1..m+3, "
     "stale_check_max_workers, any scheduler/schedule; oracle: max in-flight calls+store ops <= w, modified-time queries <= "
     "stale_check_max_workers (default w), latch of width min(w, m) opens. max_errors: failing subset, k; oracle: failed "
     "<= k + w; one worker: failed == min(k+1, eligible failing); k=None: every call with no failed ancestor ran. retry: "
